@@ -131,6 +131,13 @@ def vary(nb, differing, variant, ignored=()):
         if variant % 3 == 1 and "id" in ignored:
             i, j = variant % len(b.cells), (variant + 2) % len(b.cells)        # two cells exchange their ids
             b.cells[i]["id"], b.cells[j]["id"] = b.cells[j]["id"], b.cells[i]["id"]
+        elif variant % 3 == 2 and "id" in ignored:
+            # the other notebook is the same notebook saved by an older tool: format 4.4, whose cells have no id key at
+            # all (one-sided keys of an ignored category; the format number itself is not in any category)
+            for c in b.cells:
+                del c["id"]
+            b.nbformat_minor = 4
+            vary.tags.append("resaved-as-4.4")
         else:
             b.cells[variant % len(b.cells)]["id"] = "renamed-%d" % variant
     if "details" in differing:
@@ -216,7 +223,7 @@ def evaluate(task):
         if a.nbformat_minor < 5 and "id" in differing:
             a = BASES[0]
         b = vary(a, differing, k, ignored)
-        extra = {"ign": ignored, "expectEmpty": bool(case["expectEmpty"])}
+        extra = {"ign": ignored, "expectEmpty": bool(case["expectEmpty"]) and "resaved-as-4.4" not in vary.tags}
         ev, dd = diff_event("m%d" % k, a, b, diff_notebooks, patch_notebook, snapshot=False, extra=extra)
         ev["_nonempty_expected"] = bool(case["expectNonEmpty"]) and dd is not None and len(dd) == 0 and a != b
         ev["_valid"] = concretize.is_valid(b)
